@@ -90,7 +90,11 @@ func c19Profiles(tier string) []Profile {
 			func(w *harness.World) { w.GetItemRaw("x", kB, false); w.Exist("x", kB) },
 			func(w *harness.World) { w.GetItemRaw("x", kB, false) },
 		}}
-	return []Profile{conc.Profile(2), p.Profile(fmt.Sprintf("every history of length <= %d over Set/Delete on 3 keys, key-only lookups (GetItem, Min, Max, Exist), key-only visits through 3 APIs, Len, one value-loading lookup and visit (to vary what is cached), Flush, Evict, Reopen; at the end of every history the file is re-opened and all key-only operations run again on the never-loaded store. Every ReadAt issued during a key-only call is checked against the value byte ranges of all item records (independent decoder over all roots); every open of a file ending in a root record may only Stat and read inside that record and must leave no node cached", d))}
+	ph := *p
+	ph.Name, ph.Depth, ph.CBMask = "lazy-with-hooks", d-1, harness.CBBeforeWrite|harness.CBAfterRead|harness.CBValLength
+	return []Profile{conc.Profile(2),
+		ph.Profile(fmt.Sprintf("the same alphabet and oracle with pass-through BeforeItemWrite / AfterItemRead hooks and an ItemValLength callback installed, histories of length <= %d: installing a hook must not make key-only operations read values", d-1)),
+		p.Profile(fmt.Sprintf("every history of length <= %d over Set/Delete on 3 keys, key-only lookups (GetItem, Min, Max, Exist), key-only visits through 3 APIs, Len, one value-loading lookup and visit (to vary what is cached), Flush, Evict, Reopen; at the end of every history the file is re-opened and all key-only operations run again on the never-loaded store. Every ReadAt issued during a key-only call is checked against the value byte ranges of all item records (independent decoder over all roots); every open of a file ending in a root record may only Stat and read inside that record and must leave no node cached", d))}
 }
 
 func init() {
